@@ -67,6 +67,7 @@ class Gen:
         self.max_depth = max_depth
         self.max_str = max_str
         self.big = big
+        self.method_pool = None
         self._arg_mode = {}
 
     # ----------------------------------------------------------- primitives
@@ -308,7 +309,7 @@ class Gen:
     def method_frame(self, marker=None, names=None):
         r = self.r
         cl = classes()
-        name = r.choice(names or sorted(cl))
+        name = r.choice(names or self.method_pool or sorted(cl))
         cls = cl[name]
         return {'k': 'method', 'cls': name, 'ch': self.channel(),
                 'args': self.method_args(cls, marker)}
@@ -355,8 +356,11 @@ class Gen:
             size = self.integer(0, 2**64 - 1)
         else:
             size = r.randint(0, 131072)
-        return {'k': 'header', 'ch': self.channel(), 'body_size': size,
-                'props': self.props()}
+        d = {'k': 'header', 'ch': self.channel(), 'body_size': size,
+             'props': self.props()}
+        if r.random() < 0.15:
+            d['weight'] = r.choice([1, 2, 255, 256, 65535])
+        return d
 
     def body_frame(self, marker=None, max_len=4096):
         r = self.r
